@@ -24,7 +24,14 @@ import (
 // RNG is splitmix64; every random choice of a harness derives from one seed.
 type RNG struct{ s uint64 }
 
-func NewRNG(seed uint64) *RNG { return &RNG{s: seed*0x9E3779B97F4A7C15 + 0x1234567} }
+// NewRNG scrambles the seed first: the splitmix state advances additively, so
+// unscrambled consecutive seeds would yield shifted copies of one stream.
+func NewRNG(seed uint64) *RNG {
+	z := seed + 0x632BE59BD9B4E019
+	z = (z ^ (z >> 30)) * 0xBF58476D1CE4E5B9
+	z = (z ^ (z >> 27)) * 0x94D049BB133111EB
+	return &RNG{s: z ^ (z >> 31)}
+}
 
 func (r *RNG) U64() uint64 {
 	r.s += 0x9E3779B97F4A7C15
